@@ -182,7 +182,7 @@ func buildKeyPool() {
 				}
 			}
 
-			sh := int(xxhash.Sum64(k) % 128)
+			sh := int(xxhash.Sum64(k) % cache.VerifShards)
 			if _, ok := best[sh]; !ok {
 				best[sh] = k
 			}
